@@ -25,7 +25,15 @@ assert not err, err
 assert not log0.get('lost') and not log0.get('fuzzy'), 'the baseline must be computed on the unchanged tree'
 gi0 = GenIndex(path0)
 # what every function calls / how many closures it holds on the unchanged tree (novelty guard of the checker)
-json.dump(log0.get('shapes', {}), open(os.path.join(V, 'contracts', 'shape_baseline.json'), 'w'), indent=0, sort_keys=True)
+shapes0 = dict(log0.get('shapes', {}))
+cfg_secp = os.path.join(V, 'contracts', 'extract_secp.json')
+if os.path.exists(cfg_secp):
+    # functions that only the all-features configuration has (keys::rust_secp256k1::*)
+    _p, log_s, err_s = D.gen(os.path.join(root, 'ref_secp'), extract_cfg=cfg_secp)
+    assert not err_s, err_s
+    for k, v in log_s.get('shapes', {}).items():
+        shapes0.setdefault(k, v)
+json.dump(shapes0, open(os.path.join(V, 'contracts', 'shape_baseline.json'), 'w'), indent=0, sort_keys=True)
 # locals of the hinted functions on the unchanged tree: vpx follows a renamed local by matching its declaration against these
 json.dump(dict((k, v) for k, v in log0.get('locals', {}).items()), open(os.path.join(V, 'contracts', 'locals_baseline.json'), 'w'), indent=0, sort_keys=True)
 hints = gi0.hints_of()
